@@ -11,7 +11,7 @@ from concurrent.futures import ThreadPoolExecutor
 
 V = os.path.dirname(os.path.dirname(os.path.abspath(__file__)))
 BASE = "/tmp/sp"
-EXTRA = {"C18-4": ["C18", "C19"], "C06-12": ["C06", "C07"], "C20-10": ["C20", "C19"]}
+EXTRA = {"C18-4": ["C18", "C19"], "C06-12": ["C06", "C07"], "C20-10": ["C20", "C19"], "C10-7": ["C10", "C08"]}
 
 
 def sh(cmd, **kw):
@@ -104,8 +104,13 @@ def main():
                 seed, r = f.result()
                 own = seed.split("-")[0]
                 hit = any(v[0] == 1 for v in r.values())
-                print(seed, "DETECTED" if hit else "MISSED", r, flush=True)
-                bad += 0 if hit else 1
+                obsolete = False
+                mp = os.path.join(V, "seeded", seed, "meta.json")
+                if os.path.exists(mp):
+                    obsolete = bool(json.load(open(mp)).get("obsolete_since"))
+                # obsolete: a later repair in /repo removed what the change needed to break the property; reporting nothing is right
+                print(seed, "DETECTED" if hit else ("OBSOLETE-AND-QUIET" if obsolete else "MISSED"), r, flush=True)
+                bad += 0 if (hit or obsolete) else 1
             except Exception as e:
                 print("ERROR", e, flush=True)
                 bad += 1
